@@ -597,6 +597,15 @@ def run(tier):
     chk.guard(rule_r5, chk, prog)
     chk.guard(rule_r6, chk, prog)
     chk.guard(rule_r7, chk, prog)
+    # the compact rendering is produced in the worker from a pickled copy,
+    # and the accepted list comes back pickled: the hand-written pickle
+    # format must carry leaf texts verbatim (shared with C12.R1)
+    from . import c12
+    sub12 = Check('C12', 'other', tier, [], [])
+    chk.guard(c12.rule_r1, sub12, prog)
+    chk.adopt('C07.R8', 'leaf texts cross the process boundary verbatim: '
+              'the pickle writer and reader agree on tags, lengths (in '
+              'bytes), field order and codec (shared with C12.R1)', sub12)
     extra = None
     if tier == 'thorough':
         from .. import selftest
